@@ -32,3 +32,7 @@ for _fam in ("paragraph", "text"):
                            extra={"family": _fam}, replay="r_h_styles:insert_automatic_unnamed", weight=190, tier="quick" if _fam == "text" else "thorough",
                            bounds=f"existing automatic {_fam} style named one of ['', 'x', 'odfdo_auto_7', 'odfdo_auto_x', 'odfdo_auto_'] plus 'odfdo_auto_<k>', 0 <= k <= 12; two unnamed automatic inserts",
                            encodes=_ENC, stubs=_STUB))
+
+OBLIGATIONS.append(Obl(name="insert_auto_interleaved_text", module="h_styles", func="insert_auto_interleaved", shadow=True, timeout=900, env={"VERIF_FAMILY": "text"},
+                       extra={"family": "text"}, replay="r_h_styles:insert_auto_interleaved", weight=100,
+                       bounds="unnamed automatic insert, a style named odfdo_auto_<k> (1 <= k <= 4) inserted before or after it, another unnamed insert", encodes=_ENC, stubs=_STUB))
